@@ -480,10 +480,10 @@ def main():
             judge(c, parse_events(events.get('r', [])), part)
             print('verdict:', [k for k, _ in part.violations] or 'agrees', [c.key for c in crashes])
         return 0
-    n = 1500 if a.tier == 'quick' else 6000
+    n = 1500 if a.tier == 'quick' else 30000
     for r in parallel(worker, [(bindir, i, n) for i in range(32)]):
         rep.merge(r)
-    for r in parallel(repl_worker, [(bindir, i, 12 if a.tier == 'quick' else 150) for i in range(16)]):
+    for r in parallel(repl_worker, [(bindir, i, 12 if a.tier == 'quick' else 600) for i in range(16)]):
         rep.merge(r)
     return rep.finish(
         rule='session = model-steered script stepped to a random prefix (start, middle, last op, end); exec token lists of 1..8 tokens in exec\'s own grammar (opcode names with/without OP_, decimals, hex pushes, '
